@@ -490,6 +490,7 @@ type h3SrvObs struct {
 	errCL, notAllowed        bool
 	wrote                    int
 	done                     bool
+	t0, t1                   int64
 }
 
 type h3EarlyObs struct {
@@ -515,6 +516,7 @@ type h3Obs struct {
 	cancelled         bool // the client cancelled the context before the exchange finished
 	abandoned         bool
 	uploadErr         bool
+	t0, t1            int64
 }
 
 type h3Run struct {
@@ -970,7 +972,8 @@ func (x *h3Run) serveHTTP(w http.ResponseWriter, r *http.Request) {
 	h := &q.H
 	p := x.plans[i]
 	o := x.obs[i]
-	so := &h3SrvObs{method: r.Method, uri: r.RequestURI, host: r.Host, proto: r.Proto, hdr: r.Header.Clone(), cl: r.ContentLength}
+	so := &h3SrvObs{method: r.Method, uri: r.RequestURI, host: r.Host, proto: r.Proto, hdr: r.Header.Clone(), cl: r.ContentLength, t0: x.w.NowNS()}
+	defer func() { so.t1 = x.w.NowNS() }()
 	o.mu.Lock()
 	o.calls = append(o.calls, so)
 	o.mu.Unlock()
@@ -1061,6 +1064,10 @@ func (x *h3Run) serveHTTP(w http.ResponseWriter, r *http.Request) {
 			x.res.Probe("h:panic-mid-body")
 			panic("h3sim: handler panics in the middle of the body")
 		}
+	}
+	if h.Panic == 2 {
+		x.res.Probe("h:panic-mid-body")
+		panic("h3sim: handler panics after the body")
 	}
 	if h.Read == 3 {
 		x.res.Probe("h:body-read-after-response")
@@ -1306,8 +1313,9 @@ func (x *h3Run) doReq(i int) {
 		}
 	}
 	o.mu.Lock()
-	o.started = true
+	o.started, o.t0 = true, x.w.NowNS()
 	o.mu.Unlock()
+	defer func() { o.t1 = x.w.NowNS() }()
 	resp, err := x.h3t.RoundTrip(req)
 	if err != nil {
 		o.mu.Lock()
@@ -1703,10 +1711,10 @@ func (x *h3Run) judgeTransport(cause [2]error) {
 		what := fmt.Sprintf("request #%d (%s %s)", i, q.Method, p.reqURI)
 		o.mu.Lock()
 		res.TraceAdd(fmt.Sprintf("%d:%v:%d:%d:%v:%s:%s:%d", i, o.finished, o.status, o.bodyN, o.bodyEOF, h3ErrClass(o.rtErr), h3ErrClass(o.bodyErr), len(o.calls)))
-		res.Logf("%s: started=%v finished=%v rtErr=%v status=%d cl=%d bodyN=%d eof=%v bodyErr=%v cancelled=%v abandoned=%v calls=%d early=%d trl=%v", what, o.started, o.finished, o.rtErr,
+		res.Logf("%s: [%d..%d us] started=%v finished=%v rtErr=%v status=%d cl=%d bodyN=%d eof=%v bodyErr=%v cancelled=%v abandoned=%v calls=%d early=%d trl=%v", what, o.t0/1000, o.t1/1000, o.started, o.finished, o.rtErr,
 			o.status, o.cl, o.bodyN, o.bodyEOF, o.bodyErr, o.cancelled, o.abandoned, len(o.calls), len(o.early), o.trl)
 		for k, so := range o.calls {
-			res.Logf("   call %d: cl=%d bodyN=%d eof=%v bodyErr=%v writeErr=%v wrote=%d done=%v trl=%v", k, so.cl, so.bodyN, so.bodyEOF, so.bodyErr, so.writeErr, so.wrote, so.done, so.trl)
+			res.Logf("   call %d: [%d..%d us] cl=%d bodyN=%d eof=%v bodyErr=%v writeErr=%v wrote=%d done=%v trl=%v", k, so.t0/1000, so.t1/1000, so.cl, so.bodyN, so.bodyEOF, so.bodyErr, so.writeErr, so.wrote, so.done, so.trl)
 		}
 		if !o.started {
 			o.mu.Unlock()
